@@ -39,6 +39,13 @@ def jobs(ctx):
                     ov[sec] = {"chain_time": rng.choice([dt, 2 * dt, dt / 2, 0.78965])}
             if rng.random() < 0.4:
                 ov["FixedIntervalSamplingEventHandler"]["first_event_time_zero"] = "True"
+            if rng.random() < 0.6:
+                # the end-of-run handler connected to the sampling handler's output handler: the final state is
+                # written as well
+                import re
+                m = re.search(r"\[FixedIntervalSamplingEventHandler\][^\[]*?output_handler\s*=\s*(\S+)", ini, re.S)
+                if m:
+                    ov["FinalTimeEndOfRunEventHandler"]["output_handler"] = m.group(1)
             js.append((c, ov))
     return js + [(c, {}) for c in cfgs]
 
